@@ -246,6 +246,16 @@ func call(w *world, from string, nonce uint64, sel byte, price *big.Int) *types.
 	return sign(types.NewTransaction(nonce, w.X, big.NewInt(0), 300000, price, []byte{sel}), keyOf(from))
 }
 
+// The REVERTER (genesis allocation of the "+factory" chains): CALL(x, value = CALLVALUE) and then REVERT; with first
+// calldata byte 1 it instead loops until it is out of gas. Either way the value call to x is undone by the caller's frame.
+func reverterRuntime(x common.Address) []byte {
+	ax := "raw:" + common.Bytes2Hex(x.Bytes())
+	return asm("#0", "#0", "#0", "#0", opCALLVALUE, opPUSH20, ax, opGAS, opCALL, opPOP,
+		"#0", opCALLDATALOAD, "#0", opBYTE, "@loop", opJUMPI,
+		"#0", "#0", opREVERT,
+		":loop", "@loop", opJUMP)
+}
+
 var alphabet = []tmpl{
 	{Name: "xferA", From: "A", Nonce: plain, Want: "ok", Make: func(w *world, n uint64) *types.Transaction {
 		return sign(types.NewTransaction(n, common.BytesToAddress([]byte{0xee, 1}), big.NewInt(1000), 30000, one, nil), keyA)
@@ -331,6 +341,14 @@ var alphabet = []tmpl{
 	{Name: "fwdA", From: "A", Nonce: plain, Want: "ok", ChainOnly: true, Make: func(w *world, n uint64) *types.Transaction {
 		// pays the contract's address THROUGH the forwarder (CALL with value) which then reads its balance and code size
 		return sign(types.NewTransaction(n, forwarderAddr, big.NewInt(777), 300000, one, nil), keyA)
+	}},
+	{Name: "rvA", From: "A", Nonce: plain, Want: "failed", ChainOnly: true, Make: func(w *world, n uint64) *types.Transaction {
+		// the reverter CALLs the contract's address with value and then REVERTs
+		return sign(types.NewTransaction(n, reverterAddr, big.NewInt(555), 200000, one, nil), keyA)
+	}},
+	{Name: "oogA", From: "A", Nonce: plain, Want: "failed", ChainOnly: true, Make: func(w *world, n uint64) *types.Transaction {
+		// the reverter CALLs the contract's address with value and then runs out of gas
+		return sign(types.NewTransaction(n, reverterAddr, big.NewInt(555), 200000, one, []byte{1}), keyA)
 	}},
 	{Name: "exitV3", From: "V3", Nonce: plain, Want: "ok", Make: func(w *world, n uint64) *types.Transaction {
 		// genesis validator 3 withdraws its whole self delegation: it leaves the validator set
